@@ -44,7 +44,8 @@ class C19(Prop):
         "under hash collisions (13-wide scatters under PYTHONHASHSEED=0 showed no flip), so no opposite acquisition orders "
         "and no deadlock materialise in engine runs.")
     LEVEL_NOTE = (
-        "Partial: delivery is proved at the port level only (that the attached workflow consumes the token and terminates, "
+        "Partial: status_of defaults to Completed for a job without an allocation (get_allocation raises WorkflowExecutionException there; named "
+        "assumption, not exercised); delivery is proved at the port level only (that the attached workflow consumes the token and terminates, "
         "that the tags agree and that the producer does put the token are exercised by the engine runs); the lock model abstracts a critical section to "
         "one terminating step (its liveness relies on the executor, C04); the once-per-loss theorem needs the window "
         "hypothesis, and the real engine violates the text outside it (a recovery that built its provenance graph while p was "
@@ -65,7 +66,10 @@ class C19(Prop):
                "harness/props/_recov.py: workflow builders, failure injection with a barrier, hold of one re-execution, "
                "recording shims around the real failure manager methods",
                "asyncio (Lock fairness, task scheduling), SQLite, local filesystem are exercised, not modelled")
-    ASSUMPTIONS = ("a recovery's critical section (between taking and releasing its locks) terminates",
+    ASSUMPTIONS = ("every job named in a request list has a scheduler allocation: RecSync/Model.v:status_of answers Completed for "
+                   "a job it has never seen, where DefaultScheduler.get_allocation raises WorkflowExecutionException; the theorems are "
+                   "meant for known jobs and the correspondence gives every job a status first",
+                   "a recovery's critical section (between taking and releasing its locks) terminates",
                    "id() order of the request objects is a fixed total order during a run",
                    "delivery of regenerated tokens to attached recovery workflows is exercised, not proved")
     MAX_WORKERS = 8
@@ -103,7 +107,9 @@ class C19(Prop):
         for _ in range(nh):
             names = [f"/s{i}/0" for i in range(rng.randrange(1, 5))]
             lim = rng.choice([None, 1, 2, 2, 3, 3, 4, 5])
-            evs = []
+            # every job has an allocation before the first synchronisation (the real get_allocation raises for an unknown
+            # job; the model's status_of would answer Completed: that default is never exercised)
+            evs = [["set", j, rng.choice(REC + NOREC)] for j in names]
             for _ in range(rng.randrange(2, 11)):
                 if rng.random() < 0.6:
                     evs.append(["sync", rng.sample(names, rng.randrange(1, len(names) + 1))])
@@ -135,7 +141,8 @@ class C19(Prop):
                 self.status = {}
 
             def get_allocation(self, job):
-                return SimpleNamespace(status=self.status.get(job, Status.COMPLETED))
+                # like the real scheduler: a job without an allocation is an error, not "completed"
+                return SimpleNamespace(status=self.status[job])
 
             async def notify_status(self, job, status):
                 self.status[job] = status
